@@ -327,6 +327,9 @@ func (f *Flow) mutateAtt(msg []byte, honestIdx []int) ([]byte, string) {
 	g := f.g
 	att := f.attestWith(msg, honestIdx)
 	n := len(honestIdx)
+	if n == 0 {
+		return att, "att-no-signers"
+	}
 	k := g.r.Intn(30)
 	switch k {
 	case 0:
@@ -528,6 +531,18 @@ func (f *Flow) Receive(usePool bool) {
 		recipient = g.r.Bytes(32)
 		body = g.patBytes(g.pickInt([]int{0, 1, 131, 132, 133, 200}))
 		sender = g.r.Bytes(32)
+		if g.r.Chance(1, 6) {
+			// not the module: the low 20 bytes are the module address but the high 12 bytes are not zero
+			recipient = append(g.r.Bytes(12), types.ModuleAddress...)
+			recipient[g.r.Intn(12)] |= 1
+			g.stats.Mut("rcv-recipient-module-low20-only")
+			if g.r.Chance(1, 2) {
+				body, sender = f.burnBody(src), f.messengers[src]
+				if sender == nil {
+					sender = g.r.Bytes(32)
+				}
+			}
+		}
 	}
 	version, dst := uint32(0), uint32(4)
 	caller := make([]byte, 32)
